@@ -662,6 +662,10 @@ func (r *run) stopKinds() string {
 		switch e.Kind {
 		case "Shutdown()", "cancel", "fire-watcherr":
 			k = e.Kind
+		case "notify-delivered":
+			if e.Info == "error" {
+				k = "watcherr-behind-pending-notification"
+			}
 		case "signal":
 			if e.Info != syscall.SIGHUP.String() {
 				k = "signal"
